@@ -91,3 +91,8 @@ package lexer
 //@   ensures[hex-lower] ch >= 97 && ch <= 102 ==> r == int(ch) - 97 + 10
 //@   ensures[hex-upper] ch >= 65 && ch <= 70 ==> r == int(ch) - 65 + 10
 //@   ensures[other] !(ch >= 48 && ch <= 57) && !(ch >= 97 && ch <= 102) && !(ch >= 65 && ch <= 70) ==> r == 16
+
+// a number may start with '.': after the dot the lexer looks for any decimal digit (C12)
+//@ func lexer.dot
+//@   property C12
+//@   schema accepts 0123456789 .
